@@ -10,6 +10,7 @@ import (
 	"sort"
 	"strconv"
 	"strings"
+	"sync"
 	"unsafe"
 
 	"github.com/mlange-42/arche/ecs"
@@ -443,6 +444,14 @@ func (x *W) installListener(subs int, comps string) {
 }
 
 // installDispatch: the first k sub-listeners go to NewDispatch, the rest are added later.
+var dispatchTemplate = listener.NewDispatch()
+
+// events delivered to a listener of another world (C19); reported with the next operation
+var crossTalk struct {
+	sync.Mutex
+	msgs []string
+}
+
 func (x *W) installDispatch(k int, specs []string) {
 	var cbs []*listener.Callback
 	for i := 0; i+1 < len(specs); i += 2 {
@@ -454,7 +463,14 @@ func (x *W) installDispatch(k int, specs []string) {
 	for i := 0; i < k && i < len(cbs); i++ {
 		first = append(first, cbs[i])
 	}
-	d := listener.NewDispatch(first...)
+	var d listener.Dispatch
+	if k == 0 {
+		// a copy of one template value shared by all worlds of the process (Dispatch is a value
+		// type; NewDispatch returns it by value): the copies must be independent
+		d = dispatchTemplate
+	} else {
+		d = listener.NewDispatch(first...)
+	}
 	for i := k; i < len(cbs); i++ {
 		d.AddListener(cbs[i])
 	}
@@ -464,6 +480,14 @@ func (x *W) installDispatch(k int, specs []string) {
 
 func (x *W) callback(to int, subs int, comps string) listener.Callback {
 	cb := listener.NewCallback(func(w *ecs.World, e ecs.EntityEvent) {
+		if w != x.w {
+			crossTalk.Lock()
+			if len(crossTalk.msgs) < 3 {
+				crossTalk.msgs = append(crossTalk.msgs, "event of another world delivered to this world's listener")
+			}
+			crossTalk.Unlock()
+			return
+		}
 		re := rawEvent{e: e, locked: w.IsLocked(), to: to}
 		// copy the id slices: the documentation forbids keeping them
 		re.e.AddedIDs = append([]ecs.ID{}, e.AddedIDs...)
@@ -908,6 +932,12 @@ func (h *H) run(idx int, wk int, cmd string, args []string) []string {
 	for _, c := range x.chk {
 		out = append(out, fmt.Sprintf("CHK %d FAIL %s", idx, c))
 	}
+	crossTalk.Lock()
+	for _, c := range crossTalk.msgs {
+		out = append(out, fmt.Sprintf("CHK %d FAIL %s", idx, c))
+	}
+	crossTalk.msgs = nil
+	crossTalk.Unlock()
 	return out
 }
 
